@@ -252,6 +252,7 @@ impl Tlc {
     cmd
       .current_dir(&self.spec_dir)
       .env("JAVA_TOOL_OPTIONS", java_opts)
+      .arg("-Xss1g") // on the command line too: the launcher sizes the main thread (initial states) from it
       .arg(format!("-Xmx{}", r.xmx))
       .arg("-XX:+UseParallelGC")
       .arg("-cp")
@@ -301,6 +302,9 @@ impl Tlc {
       }
     };
     let stdout = t_out.join().unwrap_or_default();
+    if std::env::var("VERIF_KEEP_TLC").is_ok() {
+      let _ = std::fs::write(self.work_dir.join(format!("tlc_{}{}.out", r.module, r.tag)), &stdout);
+    }
     let stderr = t_err.join().unwrap_or_default();
     let _ = std::fs::remove_dir_all(&meta);
     let mut out = TlcOut {
